@@ -187,6 +187,8 @@ def remesh_strategy(tier):
             "mesh": st.fixed_dictionaries(
                 {"mode": st.sampled_from(MODES), "pts": st.lists(_point(), min_size=2, max_size=10), "bits": st.integers(0, 2**24 - 1)}
             ),
+            # optional pre-step: the assembly pitch is changed through Block.setPitch (factor x as-built) before re-meshing
+            "pitch": st.one_of(st.none(), st.none(), st.sampled_from([0.97, 1.02, 1.05]), st.floats(0.97, 1.05, allow_nan=False)),
             "params": st.lists(param, min_size=1, max_size=7),
             "back": st.fixed_dictionaries(
                 {"reassign": st.booleans(), "vals": st.lists(_value(), min_size=6, max_size=6), "unset": st.integers(0, 255)}
@@ -382,6 +384,13 @@ def remesh_execute(case):
     specs = case["blocks"]
     n = len(specs)
     a = _mkassembly(specs)
+    if case.get("pitch") is not None and case["pitch"] != 1.0:
+        # public pitch change (as Core.setPitchUniform does per block); every oracle below is taken from the live objects afterwards
+        newPitch = PITCH * case["pitch"]
+        for b in a:
+            b.setPitch(newPitch)
+        out.label("pitch:changed")
+        out.check(all(abs(b.getPitch() - newPitch) <= 1e-12 * newPitch for b in a), "remesh/harness-pitch-not-set", lambda: "pitches %r" % [b.getPitch() for b in a])
     src_z = ref.cumulative([s["h"] for s in specs])
     # harness sanity: our z equals armi's
     out.check(all(abs(b.p.ztop - src_z[i + 1]) <= 1e-9 and abs(b.p.zbottom - src_z[i]) <= 1e-9 for i, b in enumerate(a)),
